@@ -462,7 +462,7 @@ def parse_json_diags(out, root):
                 f = os.path.relpath(m.group(1), root) if m.group(1).startswith("/") else m.group(1)
                 cm = CODE_RE.match(x.get("message", ""))
                 code = cm.group(1) if cm else "?"
-                key = (f, int(m.group(2)), int(m.group(3)), code, an)
+                key = (f, int(m.group(2)), int(m.group(3)), code, an, x.get("message", ""))
                 res[key] = {"file": f, "line": int(m.group(2)), "col": int(m.group(3)), "code": code, "analyzer": an,
                             "message": x.get("message", "")}
     return [res[k] for k in sorted(res)], errors
